@@ -1,1 +1,667 @@
-//! Shared helpers for streams that go through CompassApp (config TOML + generated network files): owned by the C12 work item.
+//! Shared helpers for streams that go through the REAL `CompassApp` (config TOML + generated network
+//! files on disk, no network access).  Owned by the C12 work item; C06 / C19 and others reuse it.
+//!
+//! Public API
+//!   network   Net { coords, edges }                    vertices = index in `coords` (x = lon, y = lat),
+//!                                                       edges = (src, dst, distance_m, speed_kph, road_class)
+//!             Net::grid(w, h) / Net::line(n) / Net::diamond() / Net::yen_hang()   small deterministic networks
+//!             Net::random(rng, n)                       random sparse digraph on a 0.01-degree grid
+//!             write_network(dir, &Net) -> NetFiles      edges.csv, vertices.csv, speeds.txt, geometries.txt,
+//!                                                       road_classes.txt, uuids.txt (absolute paths)
+//!   config    InPlugin / OutPlugin / Alg / Traversal / AppCfg  -- a chosen plugin configuration, algorithm,
+//!             orientation, parallelism, termination, response persistence and optional output file
+//!             config_toml(&AppCfg, &NetFiles) -> String the TOML text (absolute data paths)
+//!             build_app(&AppCfg, dir) -> Result<Arc<CompassApp>, String>   writes network + `compass.toml`
+//!                                                       into `dir` and calls try_from_config_toml_string
+//!             cfg_to_json / cfg_from_json               (case descriptions / replay)
+//!   run       RunOutcome { Ok(responses) | Err(msg) | Panic(msg) | Hang }
+//!             run_watchdog(&Arc<CompassApp>, queries, config_override, timeout_ms) -> RunOutcome
+//!                 `app.run` on its own thread under catch_unwind; no answer within `timeout_ms` => Hang
+//!                 (the thread is abandoned: call std::process::exit at the end of main)
+//!             run_user_json(&Arc<CompassApp>, &user_json, override, timeout_ms) -> RunOutcome
+//!                 what the CLI does: `get_queries()` then `run`
+//!             call_watchdog(f, timeout_ms) -> Option<Result<T, String>>   the same for any closure
+//!   recorder  Recorder / wrap_input_plugins(&CompassApp, idxs) -> (CompassApp', log)
+//!                 replaces chosen input plugins by recording proxies: every (input, result) pair of
+//!                 `process` is logged (the plugin is then an ORACLE for a model that treats it as opaque)
+//!   print     strip_wallclock(&Value) -> Value          removes runtimes / timestamps / memory sizes
+//!             canon_response(&Value) -> String          sorted keys, wall-clock fields removed
+//!             response_class(&Value) -> &'static str    "ok" | "err" | "bad" (not an object / no request)
+use crate::*;
+use routee_compass::app::compass::compass_app::CompassApp;
+use routee_compass::app::compass::compass_json_extensions::CompassJsonExtensions;
+use routee_compass::app::compass::config::compass_app_builder::CompassAppBuilder;
+use routee_compass::plugin::input::input_plugin::InputPlugin;
+use routee_compass::plugin::input::InputPluginError;
+use serde_json::{json, Value};
+use std::path::{Path, PathBuf};
+use std::sync::{mpsc, Arc, Mutex};
+
+// ------------------------------------------------------------------------------------------ network
+
+#[derive(Clone, Debug)]
+pub struct Net {
+    pub coords: Vec<(f64, f64)>,
+    /// (src, dst, distance in meters, speed in km/h, road class)
+    pub edges: Vec<(usize, usize, f64, f64, u8)>,
+}
+impl Net {
+    /// w x h grid, 0.01 degree spacing around (-105, 39.7), both directions on every street
+    pub fn grid(w: usize, h: usize) -> Net {
+        let mut coords = vec![];
+        for j in 0..h {
+            for i in 0..w {
+                coords.push((-105.0 + 0.01 * i as f64, 39.7 + 0.01 * j as f64));
+            }
+        }
+        let mut edges = vec![];
+        let id = |i: usize, j: usize| j * w + i;
+        for j in 0..h {
+            for i in 0..w {
+                if i + 1 < w {
+                    edges.push((id(i, j), id(i + 1, j), 850.0, 40.0, 1));
+                    edges.push((id(i + 1, j), id(i, j), 850.0, 40.0, 1));
+                }
+                if j + 1 < h {
+                    edges.push((id(i, j), id(i, j + 1), 1110.0, 60.0, 2));
+                    edges.push((id(i, j + 1), id(i, j), 1110.0, 60.0, 2));
+                }
+            }
+        }
+        Net { coords, edges }
+    }
+    /// one-way chain 0 -> 1 -> ... -> n-1 plus one isolated vertex n
+    pub fn line(n: usize) -> Net {
+        let coords = (0..=n).map(|i| (-105.0 + 0.01 * i as f64, 39.7)).collect();
+        let edges = (0..n.saturating_sub(1)).map(|i| (i, i + 1, 850.0, 40.0, 1)).collect();
+        Net { coords, edges }
+    }
+    /// 0->1->3 (1+1 km), 0->2->3 (2+2 km), 0->3 (10 km): the D-ACCEPTALL / D-YEN diamond
+    pub fn diamond() -> Net {
+        Net {
+            coords: vec![(-105.0, 39.7), (-104.99, 39.71), (-104.99, 39.69), (-104.98, 39.7)],
+            edges: vec![
+                (0, 1, 1000.0, 40.0, 1),
+                (1, 3, 1000.0, 40.0, 1),
+                (0, 2, 2000.0, 40.0, 1),
+                (2, 3, 2000.0, 40.0, 1),
+                (0, 3, 10000.0, 40.0, 2),
+            ],
+        }
+    }
+    /// the 3-edge shortest path network on which Yen's k = 3 from 0 to 3 was observed not to return (D-YEN)
+    pub fn yen_hang() -> Net {
+        Net {
+            coords: vec![(-105.0, 39.7), (-104.99, 39.7), (-104.98, 39.7), (-104.97, 39.7)],
+            edges: vec![
+                (0, 1, 1000.0, 40.0, 1),
+                (1, 2, 1000.0, 40.0, 1),
+                (2, 3, 1000.0, 40.0, 1),
+                (0, 2, 5000.0, 40.0, 1),
+                (1, 3, 5000.0, 40.0, 1),
+                (0, 3, 20000.0, 40.0, 1),
+            ],
+        }
+    }
+    pub fn random(rng: &mut Rng, n: usize) -> Net {
+        let n = n.max(2);
+        let coords: Vec<(f64, f64)> =
+            (0..n).map(|_| (-105.0 + 0.01 * rng.below(8) as f64, 39.7 + 0.01 * rng.below(8) as f64)).collect();
+        let mut edges = vec![];
+        for s in 0..n {
+            let deg = rng.below(4) as usize;
+            for _ in 0..deg {
+                let d = rng.below(n as u64) as usize;
+                edges.push((s, d, 100.0 * (1 + rng.below(40)) as f64, 10.0 * (1 + rng.below(12)) as f64, rng.below(4) as u8));
+            }
+        }
+        if edges.is_empty() {
+            edges.push((0, 1, 500.0, 30.0, 1));
+        }
+        Net { coords, edges }
+    }
+    pub fn to_json(&self) -> Value {
+        json!({"coords": self.coords, "edges": self.edges})
+    }
+    pub fn from_json(v: &Value) -> Net {
+        Net {
+            coords: serde_json::from_value(v["coords"].clone()).unwrap(),
+            edges: serde_json::from_value(v["edges"].clone()).unwrap(),
+        }
+    }
+}
+
+#[derive(Clone, Debug)]
+pub struct NetFiles {
+    pub dir: PathBuf,
+    pub edges: String,
+    pub vertices: String,
+    pub speeds: String,
+    pub geometries: String,
+    pub road_classes: String,
+    pub uuids: String,
+}
+fn abs(p: &Path) -> String {
+    let p = if p.is_absolute() { p.to_path_buf() } else { std::env::current_dir().unwrap().join(p) };
+    p.to_str().unwrap().to_string()
+}
+pub fn write_network(dir: &Path, net: &Net) -> NetFiles {
+    std::fs::create_dir_all(dir).unwrap();
+    let w = |name: &str, content: String| -> String {
+        let p = dir.join(name);
+        std::fs::write(&p, content).unwrap();
+        abs(&p)
+    };
+    let mut e = String::from("edge_id,src_vertex_id,dst_vertex_id,distance\n");
+    let mut sp = String::new();
+    let mut ge = String::new();
+    let mut rc = String::new();
+    for (i, (s, d, dist, speed, class)) in net.edges.iter().enumerate() {
+        e += &format!("{},{},{},{}\n", i, s, d, dist);
+        sp += &format!("{}\n", speed);
+        let (a, b) = (net.coords[*s], net.coords[*d]);
+        ge += &format!("LINESTRING ({} {}, {} {})\n", a.0, a.1, b.0, b.1);
+        rc += &format!("{}\n", class);
+    }
+    let mut v = String::from("vertex_id,x,y\n");
+    let mut uu = String::new();
+    for (i, (x, y)) in net.coords.iter().enumerate() {
+        v += &format!("{},{},{}\n", i, x, y);
+        uu += &format!("uuid-{}\n", i);
+    }
+    NetFiles {
+        dir: dir.to_path_buf(),
+        edges: w("edges.csv", e),
+        vertices: w("vertices.csv", v),
+        speeds: w("speeds.txt", sp),
+        geometries: w("geometries.txt", ge),
+        road_classes: w("road_classes.txt", rc),
+        uuids: w("uuids.txt", uu),
+    }
+}
+
+// ------------------------------------------------------------------------------------------ configuration
+
+#[derive(Clone, Debug, PartialEq)]
+pub enum InPlugin {
+    GridSearch,
+    /// `value` is the text given in the TOML (parsed by the plugin builder as JSON or kept as a string)
+    Inject { key: String, value: String, json_format: bool, overwrite: Option<bool> },
+    LbHaversine,
+    /// custom numeric weight read from `column` (None: "query_weight_estimate")
+    LbNumeric { column: Option<String> },
+    /// custom categorical weight: mapping a -> 1.0, b -> 2.5 ; optional default
+    LbCategorical { column: Option<String>, default: Option<f64> },
+    VertexRtree { tolerance_m: Option<f64> },
+    EdgeRtree { tolerance_m: Option<f64>, road_classes: bool },
+    Debug,
+}
+#[derive(Clone, Debug, PartialEq)]
+pub enum OutPlugin {
+    Summary,
+    /// route / tree formats: "wkt" "wkb" "json" "geo_json" "edge_id"
+    Traversal { route: Option<String>, tree: Option<String> },
+    Uuid,
+}
+#[derive(Clone, Debug, PartialEq)]
+pub enum Alg {
+    AStar,
+    Dijkstra,
+    KspSingleVia { k: usize, dijkstra: bool },
+    Yens { k: usize, dijkstra: bool },
+}
+#[derive(Clone, Debug, PartialEq)]
+pub enum Traversal {
+    Distance,
+    SpeedTable,
+    /// energy model with the ICE test vehicle "Toyota_Camry" (smartcore) over the speed table
+    Energy,
+}
+#[derive(Clone, Debug, PartialEq)]
+pub enum Termination {
+    Default,
+    Iterations(u64),
+    SolutionSize(u64),
+    /// whole seconds (the config format is H:MM:SS), check frequency
+    RuntimeS(u64, u64),
+}
+#[derive(Clone, Debug)]
+pub struct AppCfg {
+    pub net: Net,
+    pub inputs: Vec<InPlugin>,
+    pub outputs: Vec<OutPlugin>,
+    pub alg: Alg,
+    pub traversal: Traversal,
+    pub edge_oriented: bool,
+    pub parallelism: usize,
+    pub termination: Termination,
+    /// false = discard_response_from_memory
+    pub persist: bool,
+    /// Some(newline_delimited) = json file sink `responses.json` in the app directory
+    pub out_file: Option<bool>,
+}
+impl AppCfg {
+    pub fn basic(net: Net) -> AppCfg {
+        AppCfg {
+            net,
+            inputs: vec![],
+            outputs: vec![],
+            alg: Alg::AStar,
+            traversal: Traversal::SpeedTable,
+            edge_oriented: false,
+            parallelism: 2,
+            termination: Termination::Default,
+            persist: true,
+            out_file: None,
+        }
+    }
+}
+
+fn toml_str(s: &str) -> String {
+    format!("\"{}\"", s.replace('\\', "\\\\").replace('"', "\\\""))
+}
+fn alg_toml(a: &Alg) -> String {
+    let under = |d: bool| if d { "{ type = \"dijkstra\" }" } else { "{ type = \"a*\" }" };
+    match a {
+        Alg::AStar => "type = \"a*\"\n".into(),
+        Alg::Dijkstra => "type = \"dijkstra\"\n".into(),
+        Alg::KspSingleVia { k, dijkstra } => format!("type = \"ksp_single_via\"\nk = {}\nunderlying = {}\n", k, under(*dijkstra)),
+        Alg::Yens { k, dijkstra } => format!("type = \"yens\"\nk = {}\nunderlying = {}\n", k, under(*dijkstra)),
+    }
+}
+const POWERTRAIN_TEST: &str = "/repo/rust/routee-compass-powertrain/src/routee/test";
+/// directory of the powertrain test models in the repository under test (VERIF_REPO aware)
+pub fn powertrain_test_dir() -> String {
+    match std::env::var("VERIF_REPO") {
+        Ok(r) if !r.is_empty() => format!("{}/rust/routee-compass-powertrain/src/routee/test", r.trim_end_matches('/')),
+        _ => POWERTRAIN_TEST.to_string(),
+    }
+}
+pub fn config_toml(c: &AppCfg, f: &NetFiles) -> String {
+    let mut t = String::new();
+    t += &format!("parallelism = {}\n", c.parallelism);
+    t += &format!("search_orientation = \"{}\"\n", if c.edge_oriented { "edge" } else { "vertex" });
+    t += &format!(
+        "response_persistence_policy = \"{}\"\n",
+        if c.persist { "persist_response_in_memory" } else { "discard_response_from_memory" }
+    );
+    match c.out_file {
+        None => t += "[response_output_policy]\ntype = \"none\"\n",
+        Some(nd) => {
+            t += &format!(
+                "[response_output_policy]\ntype = \"file\"\nfilename = {}\nformat = {{ type = \"json\", newline_delimited = {} }}\n",
+                toml_str(&abs(&f.dir.join("responses.json"))),
+                nd
+            )
+        }
+    }
+    t += &format!(
+        "[graph]\nedge_list_input_file = {}\nvertex_list_input_file = {}\nverbose = false\n",
+        toml_str(&f.edges),
+        toml_str(&f.vertices)
+    );
+    t += "[algorithm]\n";
+    t += &alg_toml(&c.alg);
+    match c.traversal {
+        Traversal::Distance => {
+            t += "[traversal]\ntype = \"distance\"\ndistance_unit = \"kilometers\"\n";
+            t += "[cost]\ncost_aggregation = \"sum\"\n[cost.weights]\ndistance = 1\n[cost.vehicle_rates.distance]\ntype = \"raw\"\n";
+        }
+        Traversal::SpeedTable => {
+            t += &format!(
+                "[traversal]\ntype = \"speed_table\"\nspeed_table_input_file = {}\nspeed_unit = \"kilometers_per_hour\"\noutput_time_unit = \"minutes\"\n",
+                toml_str(&f.speeds)
+            );
+            t += "[cost]\ncost_aggregation = \"sum\"\n[cost.weights]\ndistance = 0\ntime = 1\n[cost.vehicle_rates.time]\ntype = \"raw\"\n[cost.vehicle_rates.distance]\ntype = \"raw\"\n";
+        }
+        Traversal::Energy => {
+            t += "[traversal]\ntype = \"energy_model\"\ntime_unit = \"minutes\"\ndistance_unit = \"miles\"\ngrade_table_grade_unit = \"decimal\"\n";
+            t += &format!(
+                "[traversal.time_model]\ntype = \"speed_table\"\nspeed_table_input_file = {}\nspeed_unit = \"kilometers_per_hour\"\noutput_time_unit = \"minutes\"\n",
+                toml_str(&f.speeds)
+            );
+            t += &format!(
+                "[[traversal.vehicles]]\nname = \"Toyota_Camry\"\ntype = \"ice\"\nmodel_input_file = {}\nmodel_type = \"smartcore\"\nspeed_unit = \"miles_per_hour\"\ngrade_unit = \"decimal\"\nenergy_rate_unit = \"gallons_gasoline_per_mile\"\nideal_energy_rate = 0.02857143\nreal_world_energy_adjustment = 1.166\n",
+                toml_str(&format!("{}/Toyota_Camry.bin", powertrain_test_dir()))
+            );
+            t += &format!(
+                "[[traversal.vehicles]]\nname = \"Chevy_Bolt\"\ntype = \"bev\"\nmodel_input_file = {}\nmodel_type = \"smartcore\"\nspeed_unit = \"miles_per_hour\"\ngrade_unit = \"decimal\"\nenergy_rate_unit = \"kilowatt_hours_per_mile\"\nideal_energy_rate = 0.2\nreal_world_energy_adjustment = 1.3958\nbattery_capacity = 60\nbattery_capacity_unit = \"kilowatt_hours\"\n",
+                toml_str(&format!("{}/2017_CHEVROLET_Bolt.bin", powertrain_test_dir()))
+            );
+            t += "[cost]\ncost_aggregation = \"sum\"\nignore_unknown_user_provided_weights = true\n[cost.weights]\ndistance = 1\ntime = 1\nenergy_liquid = 1\nenergy_electric = 1\n[cost.vehicle_rates.time]\ntype = \"raw\"\n[cost.vehicle_rates.distance]\ntype = \"raw\"\n[cost.vehicle_rates.energy_liquid]\ntype = \"raw\"\n[cost.vehicle_rates.energy_electric]\ntype = \"raw\"\n";
+        }
+    }
+    t += "[access]\ntype = \"no_access_model\"\n[frontier]\ntype = \"no_restriction\"\n";
+    match c.termination {
+        Termination::Default => {}
+        Termination::Iterations(n) => t += &format!("[termination]\ntype = \"iterations\"\nlimit = {}\n", n),
+        Termination::SolutionSize(n) => t += &format!("[termination]\ntype = \"solution_size\"\nlimit = {}\n", n),
+        Termination::RuntimeS(secs, freq) => {
+            t += &format!(
+                "[termination]\ntype = \"query_runtime\"\nlimit = \"{}:{:02}:{:02}\"\nfrequency = {}\n",
+                secs / 3600,
+                (secs / 60) % 60,
+                secs % 60,
+                freq
+            )
+        }
+    }
+    let tol = |x: &Option<f64>| match x {
+        None => String::new(),
+        Some(m) => format!(", distance_tolerance = {:?}, distance_unit = \"meters\"", m),
+    };
+    let ins: Vec<String> = c
+        .inputs
+        .iter()
+        .map(|p| match p {
+            InPlugin::GridSearch => "{ type = \"grid_search\" }".to_string(),
+            InPlugin::Debug => "{ type = \"debug\" }".to_string(),
+            InPlugin::Inject { key, value, json_format, overwrite } => format!(
+                "{{ type = \"inject\", key = {}, value = {}, format = \"{}\"{} }}",
+                toml_str(key),
+                toml_str(value),
+                if *json_format { "json" } else { "string" },
+                match overwrite {
+                    None => String::new(),
+                    Some(b) => format!(", overwrite = {}", b),
+                }
+            ),
+            InPlugin::LbHaversine => "{ type = \"load_balancer\", weight_heuristic = { type = \"haversine\" } }".to_string(),
+            InPlugin::LbNumeric { column } => format!(
+                "{{ type = \"load_balancer\", weight_heuristic = {{ type = \"custom\", custom_weight_type = {{ type = \"numeric\"{} }} }} }}",
+                match column {
+                    None => String::new(),
+                    Some(c) => format!(", column_name = {}", toml_str(c)),
+                }
+            ),
+            InPlugin::LbCategorical { column, default } => format!(
+                "{{ type = \"load_balancer\", weight_heuristic = {{ type = \"custom\", custom_weight_type = {{ type = \"categorical\"{}{}, mapping = {{ a = 1.0, b = 2.5 }} }} }} }}",
+                match column {
+                    None => String::new(),
+                    Some(c) => format!(", column_name = {}", toml_str(c)),
+                },
+                match default {
+                    None => String::new(),
+                    Some(d) => format!(", default = {:?}", d),
+                }
+            ),
+            InPlugin::VertexRtree { tolerance_m } => {
+                format!("{{ type = \"vertex_rtree\", vertices_input_file = {}{} }}", toml_str(&f.vertices), tol(tolerance_m))
+            }
+            InPlugin::EdgeRtree { tolerance_m, road_classes } => format!(
+                "{{ type = \"edge_rtree\", geometry_input_file = {}{}{} }}",
+                toml_str(&f.geometries),
+                if *road_classes { format!(", road_class_input_file = {}", toml_str(&f.road_classes)) } else { String::new() },
+                tol(tolerance_m)
+            ),
+        })
+        .collect();
+    let outs: Vec<String> = c
+        .outputs
+        .iter()
+        .map(|p| match p {
+            OutPlugin::Summary => "{ type = \"summary\" }".to_string(),
+            OutPlugin::Uuid => format!("{{ type = \"uuid\", uuid_input_file = {} }}", toml_str(&f.uuids)),
+            OutPlugin::Traversal { route, tree } => format!(
+                "{{ type = \"traversal\", geometry_input_file = {}{}{} }}",
+                toml_str(&f.geometries),
+                route.as_ref().map(|r| format!(", route = \"{}\"", r)).unwrap_or_default(),
+                tree.as_ref().map(|r| format!(", tree = \"{}\"", r)).unwrap_or_default()
+            ),
+        })
+        .collect();
+    t += &format!("[plugin]\ninput_plugins = [\n  {}\n]\noutput_plugins = [\n  {}\n]\n", ins.join(",\n  "), outs.join(",\n  "));
+    t
+}
+
+/// writes the network and `compass.toml` into `dir` and builds the real application from them
+pub fn build_app(c: &AppCfg, dir: &Path) -> Result<Arc<CompassApp>, String> {
+    let files = write_network(dir, &c.net);
+    let toml = config_toml(c, &files);
+    let conf_path = dir.join("compass.toml");
+    std::fs::write(&conf_path, &toml).map_err(|e| e.to_string())?;
+    let out = dir.join("responses.json");
+    let _ = std::fs::remove_file(&out);
+    let conf = abs(&conf_path);
+    match catch(move || CompassApp::try_from_config_toml_string(toml, conf, &CompassAppBuilder::default())) {
+        Ok(Ok(app)) => Ok(Arc::new(app)),
+        Ok(Err(e)) => Err(format!("build error: {}", e)),
+        Err(p) => Err(format!("build panic: {}", p)),
+    }
+}
+
+// ---- case descriptions
+fn in_to_json(p: &InPlugin) -> Value {
+    match p {
+        InPlugin::GridSearch => json!({"t": "grid_search"}),
+        InPlugin::Debug => json!({"t": "debug"}),
+        InPlugin::Inject { key, value, json_format, overwrite } => json!({"t": "inject", "key": key, "value": value, "json": json_format, "overwrite": overwrite}),
+        InPlugin::LbHaversine => json!({"t": "lb_haversine"}),
+        InPlugin::LbNumeric { column } => json!({"t": "lb_numeric", "column": column}),
+        InPlugin::LbCategorical { column, default } => json!({"t": "lb_categorical", "column": column, "default": default}),
+        InPlugin::VertexRtree { tolerance_m } => json!({"t": "vertex_rtree", "tol": tolerance_m}),
+        InPlugin::EdgeRtree { tolerance_m, road_classes } => json!({"t": "edge_rtree", "tol": tolerance_m, "rc": road_classes}),
+    }
+}
+fn in_from_json(v: &Value) -> InPlugin {
+    let s = |k: &str| v[k].as_str().map(|x| x.to_string());
+    match v["t"].as_str().unwrap() {
+        "grid_search" => InPlugin::GridSearch,
+        "debug" => InPlugin::Debug,
+        "inject" => InPlugin::Inject { key: s("key").unwrap(), value: s("value").unwrap(), json_format: v["json"].as_bool().unwrap(), overwrite: v["overwrite"].as_bool() },
+        "lb_haversine" => InPlugin::LbHaversine,
+        "lb_numeric" => InPlugin::LbNumeric { column: s("column") },
+        "lb_categorical" => InPlugin::LbCategorical { column: s("column"), default: v["default"].as_f64() },
+        "vertex_rtree" => InPlugin::VertexRtree { tolerance_m: v["tol"].as_f64() },
+        "edge_rtree" => InPlugin::EdgeRtree { tolerance_m: v["tol"].as_f64(), road_classes: v["rc"].as_bool().unwrap_or(false) },
+        o => panic!("unknown input plugin {}", o),
+    }
+}
+pub fn cfg_to_json(c: &AppCfg) -> Value {
+    json!({
+        "net": c.net.to_json(),
+        "inputs": c.inputs.iter().map(in_to_json).collect::<Vec<_>>(),
+        "outputs": c.outputs.iter().map(|o| match o {
+            OutPlugin::Summary => json!({"t": "summary"}),
+            OutPlugin::Uuid => json!({"t": "uuid"}),
+            OutPlugin::Traversal { route, tree } => json!({"t": "traversal", "route": route, "tree": tree}),
+        }).collect::<Vec<_>>(),
+        "alg": match &c.alg {
+            Alg::AStar => json!({"t": "a*"}),
+            Alg::Dijkstra => json!({"t": "dijkstra"}),
+            Alg::KspSingleVia { k, dijkstra } => json!({"t": "ksp_single_via", "k": k, "dijkstra": dijkstra}),
+            Alg::Yens { k, dijkstra } => json!({"t": "yens", "k": k, "dijkstra": dijkstra}),
+        },
+        "traversal": match c.traversal { Traversal::Distance => "distance", Traversal::SpeedTable => "speed_table", Traversal::Energy => "energy" },
+        "edge_oriented": c.edge_oriented,
+        "parallelism": c.parallelism,
+        "termination": match c.termination {
+            Termination::Default => json!(null),
+            Termination::Iterations(n) => json!({"iterations": n}),
+            Termination::SolutionSize(n) => json!({"solution_size": n}),
+            Termination::RuntimeS(s, f) => json!({"runtime_s": s, "frequency": f}),
+        },
+        "persist": c.persist,
+        "out_file": c.out_file,
+    })
+}
+pub fn cfg_from_json(v: &Value) -> AppCfg {
+    let a = &v["alg"];
+    let t = &v["termination"];
+    AppCfg {
+        net: Net::from_json(&v["net"]),
+        inputs: v["inputs"].as_array().unwrap().iter().map(in_from_json).collect(),
+        outputs: v["outputs"]
+            .as_array()
+            .unwrap()
+            .iter()
+            .map(|o| match o["t"].as_str().unwrap() {
+                "summary" => OutPlugin::Summary,
+                "uuid" => OutPlugin::Uuid,
+                _ => OutPlugin::Traversal { route: o["route"].as_str().map(|s| s.to_string()), tree: o["tree"].as_str().map(|s| s.to_string()) },
+            })
+            .collect(),
+        alg: match a["t"].as_str().unwrap() {
+            "a*" => Alg::AStar,
+            "dijkstra" => Alg::Dijkstra,
+            "ksp_single_via" => Alg::KspSingleVia { k: a["k"].as_u64().unwrap() as usize, dijkstra: a["dijkstra"].as_bool().unwrap() },
+            _ => Alg::Yens { k: a["k"].as_u64().unwrap() as usize, dijkstra: a["dijkstra"].as_bool().unwrap() },
+        },
+        traversal: match v["traversal"].as_str().unwrap() {
+            "distance" => Traversal::Distance,
+            "energy" => Traversal::Energy,
+            _ => Traversal::SpeedTable,
+        },
+        edge_oriented: v["edge_oriented"].as_bool().unwrap(),
+        parallelism: v["parallelism"].as_u64().unwrap() as usize,
+        termination: if let Some(n) = t["iterations"].as_u64() {
+            Termination::Iterations(n)
+        } else if let Some(n) = t["solution_size"].as_u64() {
+            Termination::SolutionSize(n)
+        } else if let Some(s) = t["runtime_s"].as_u64() {
+            Termination::RuntimeS(s, t["frequency"].as_u64().unwrap_or(1))
+        } else {
+            Termination::Default
+        },
+        persist: v["persist"].as_bool().unwrap(),
+        out_file: v["out_file"].as_bool(),
+    }
+}
+
+// ------------------------------------------------------------------------------------------ running
+
+#[derive(Clone, Debug)]
+pub enum RunOutcome {
+    Ok(Vec<Value>),
+    Err(String),
+    Panic(String),
+    Hang,
+}
+impl RunOutcome {
+    pub fn class(&self) -> String {
+        match self {
+            RunOutcome::Ok(v) => format!("Ok {}", v.len()),
+            RunOutcome::Err(_) => "Err".into(),
+            RunOutcome::Panic(_) => "Panic".into(),
+            RunOutcome::Hang => "Hang".into(),
+        }
+    }
+}
+
+/// runs `f` on its own thread under catch_unwind; None = no answer within `timeout_ms` (the thread is abandoned)
+pub fn call_watchdog<T: Send + 'static>(f: impl FnOnce() -> T + Send + 'static, timeout_ms: u64) -> Option<Result<T, String>> {
+    let (tx, rx) = mpsc::channel();
+    let _ = std::thread::Builder::new().stack_size(64 << 20).spawn(move || {
+        let r = catch(std::panic::AssertUnwindSafe(f));
+        let _ = tx.send(r);
+    });
+    rx.recv_timeout(std::time::Duration::from_millis(timeout_ms)).ok()
+}
+
+pub fn run_watchdog(app: &Arc<CompassApp>, queries: Vec<Value>, config_override: Option<Value>, timeout_ms: u64) -> RunOutcome {
+    let app = app.clone();
+    match call_watchdog(move || app.run(queries, config_override.as_ref()).map_err(|e| e.to_string()), timeout_ms) {
+        None => RunOutcome::Hang,
+        Some(Err(p)) => RunOutcome::Panic(p),
+        Some(Ok(Err(e))) => RunOutcome::Err(e),
+        Some(Ok(Ok(v))) => RunOutcome::Ok(v),
+    }
+}
+
+/// the command line's path: `user_json.get_queries()` then `run`
+pub fn run_user_json(app: &Arc<CompassApp>, user_json: &Value, config_override: Option<Value>, timeout_ms: u64) -> RunOutcome {
+    let uj = user_json.clone();
+    match catch(move || uj.get_queries().map_err(|e| e.to_string())) {
+        Err(p) => RunOutcome::Panic(p),
+        Ok(Err(e)) => RunOutcome::Err(e),
+        Ok(Ok(qs)) => run_watchdog(app, qs, config_override, timeout_ms),
+    }
+}
+
+// ------------------------------------------------------------------------------------------ recording proxies
+
+/// one observed call of an input plugin: the value before, the value after (also when the call failed:
+/// plugins work in place and may have modified the query before failing), the error message if any
+#[derive(Clone, Debug)]
+pub struct PluginCall {
+    pub idx: usize,
+    pub before: Value,
+    pub after: Value,
+    pub error: Option<String>,
+}
+pub type PluginLog = Arc<Mutex<Vec<PluginCall>>>;
+pub struct Recorder {
+    pub idx: usize,
+    pub inner: Arc<dyn InputPlugin>,
+    pub log: PluginLog,
+}
+impl InputPlugin for Recorder {
+    fn process(&self, input: &mut Value) -> Result<(), InputPluginError> {
+        let before = input.clone();
+        let r = self.inner.process(input);
+        let call = PluginCall { idx: self.idx, before, after: input.clone(), error: r.as_ref().err().map(|e| e.to_string()) };
+        if let Ok(mut l) = self.log.lock() {
+            l.push(call);
+        }
+        r
+    }
+}
+/// a copy of the application whose input plugins at positions `idxs` are recording proxies
+pub fn wrap_input_plugins(app: Arc<CompassApp>, idxs: &[usize]) -> (Arc<CompassApp>, PluginLog) {
+    let log: PluginLog = Arc::new(Mutex::new(vec![]));
+    let app = match Arc::try_unwrap(app) {
+        Ok(a) => a,
+        Err(_) => panic!("wrap_input_plugins needs the only reference to the app"),
+    };
+    let plugins: Vec<Arc<dyn InputPlugin>> = app
+        .input_plugins
+        .iter()
+        .enumerate()
+        .map(|(i, p)| {
+            if idxs.contains(&i) {
+                let r: Arc<dyn InputPlugin> = Arc::new(Recorder { idx: i, inner: p.clone(), log: log.clone() });
+                r
+            } else {
+                p.clone()
+            }
+        })
+        .collect();
+    let app2 = CompassApp { input_plugins: plugins, ..app };
+    (Arc::new(app2), log)
+}
+
+// ------------------------------------------------------------------------------------------ canonical printing
+
+const WALLCLOCK: [&str; 5] =
+    ["search_executed_time", "search_runtime", "output_plugin_executed_time", "search_result_size_mib", "route_runtime"];
+pub fn strip_wallclock(v: &Value) -> Value {
+    match v {
+        Value::Object(m) => {
+            let mut o = serde_json::Map::new();
+            for (k, x) in m {
+                if !WALLCLOCK.contains(&k.as_str()) {
+                    o.insert(k.clone(), strip_wallclock(x));
+                }
+            }
+            Value::Object(o)
+        }
+        Value::Array(a) => Value::Array(a.iter().map(strip_wallclock).collect()),
+        o => o.clone(),
+    }
+}
+pub fn canon_response(v: &Value) -> String {
+    show_json(&strip_wallclock(v), true)
+}
+/// "err": object with `error` and `request`; "ok": object with `request` and no `error`; else "bad"
+pub fn response_class(v: &Value) -> &'static str {
+    match v {
+        Value::Object(m) if m.contains_key("request") => {
+            if m.contains_key("error") {
+                "err"
+            } else {
+                "ok"
+            }
+        }
+        _ => "bad",
+    }
+}
